@@ -13,6 +13,7 @@ import (
 	"verif/harness/core"
 	"verif/harness/gen"
 	"verif/harness/lib"
+	"verif/harness/wire"
 )
 
 // Shared machinery for the token-history properties (C07 C08 C09 C16 C17).
@@ -162,6 +163,23 @@ func richBlock(r *rand.Rand, u *gen.Universe, shared []string) ast.Block {
 		ek := gen.Pick(r, gen.ScalarKinds)
 		f.Terms = append(f.Terms, gen.SetOf(r, ek, 1+r.Intn(3), r.Intn(2) == 0))
 		b.Facts = append(b.Facts, f)
+	}
+	// every name of the default table, as a string, as a predicate name and as a variable name: none of
+	// them may show up in a block's own table
+	if r.Intn(4) == 0 {
+		all := ast.P("all_defaults")
+		for i, d := range wire.DefaultSymbols {
+			all.Terms = append(all.Terms, ast.Str(d))
+			if i%4 == r.Intn(4) {
+				b.Facts = append(b.Facts, ast.P(d, ast.Str(d)))
+				b.Rules = append(b.Rules, ast.Rule{Head: ast.P("named_"+d, ast.Var(d)), Body: []ast.Pred{ast.P(d, ast.Var(d))}})
+			}
+		}
+		b.Facts = append(b.Facts, all)
+	}
+	// big shapes (gen/big.go): counts, lengths and widths beyond the small pools
+	if r.Intn(6) == 0 {
+		gen.BigContent(r, r.Intn(gen.NumBigShapes), false, r.Intn(3) == 0).AddTo(&b)
 	}
 	// symbols shared with other blocks of the same family
 	if len(shared) > 0 && r.Intn(2) == 0 {
